@@ -45,6 +45,9 @@ class Zygote:
             # a process whose locale encoding is not UTF-8 (legacy code page / LC_ALL=C without coercion and without UTF-8 mode)
             env.update({"LC_ALL": "C", "LANG": "C", "PYTHONUTF8": "0", "PYTHONCOERCECLOCALE": "0", "PYTHONIOENCODING": "utf-8:backslashreplace"})
             argv = [PYTHON, os.path.join(VERIF_DIR, "simkit", "zygote.py")]
+        elif variant == "optimize":
+            # python -O: assert statements are compiled away in the simulated process (the harness itself does not rely on assert)
+            argv = [PYTHON, "-O", "-X", "utf8", os.path.join(VERIF_DIR, "simkit", "zygote.py")]
         elif variant:
             raise ValueError(f"unknown zygote variant {variant!r}")
         self.proc = subprocess.Popen(
